@@ -73,6 +73,8 @@ func govalDeviation(gc govalCase, msg string) string {
 		return false
 	}
 	switch {
+	case has("time") && strings.Contains(msg, "Year cannot be 0"):
+		return "go-year-zero"
 	case has("edge"):
 		// every failure of a value that holds a types.Edge: its end-container event is never emitted
 		return "edge-value-without-end"
